@@ -72,3 +72,9 @@ def f34_fg_duplicate_factors(v, f):
     """to_factor_graph on a Markov network holding two EQUAL factors: the target's check_model counts value-hashed factor nodes"""
     g = (v.get("case") or {}).get("g") or {}
     return g.get("layout") == "dup" and "Factors not associated with all the factor nodes" in str(v.get("observed"))
+
+
+@predicate
+def f07_string_factor_nodes(v, f):
+    """MarkovNetwork.to_factor_graph names factor nodes 'phi_<scope>' (strings): the target's check_model rejects them"""
+    return "Factors not associated for all the random variables" in str(v.get("observed"))
